@@ -26,6 +26,11 @@ func (g *apiGen) emit(obs string) {
 	g.stmt = nil
 }
 
+func (g *apiGen) emitAs(op, obs string) {
+	g.c.run(op, strings.Join(g.stmt, ";")+";!"+obs)
+	g.stmt = nil
+}
+
 func (g *apiGen) edge(max uint64) uint64 {
 	switch g.c.rng.Intn(7) {
 	case 0:
@@ -594,6 +599,144 @@ func (g *apiGen) message() string {
 	return v
 }
 
+// ---- histories with a particular shape -----------------------------------------------------------
+
+// sameNameFields: several unmasked fields of one name are built BEFORE any of them is encoded and are held by pointer
+// (reg_load2 actions) or copied by value (match, set-field); every one must keep the value it was given.
+func (g *apiGen) sameNameFields() string {
+	r := g.c.rng
+	ctor := func(v string, k int, idx int) {
+		switch k {
+		case 0:
+			g.add("%s=NewRegMatchField(%d,%d,~)", v, idx, g.edge(0xffffffff))
+		case 1:
+			g.add("%s=NewCTMarkMatchField(%d,~)", v, g.edge(0xffffffff))
+		case 2:
+			g.add("%s=NewConjIDMatchField(%d)", v, g.edge(0xffffffff))
+		default:
+			g.add("%s=NewCTZoneMatchField(%d)", v, g.edge(0xffff))
+		}
+	}
+	k, idx := r.Intn(4), r.Intn(16)
+	n := 2 + r.Intn(3)
+	var fs []string
+	for i := 0; i < n; i++ {
+		f := g.v()
+		ctor(f, k, idx)
+		fs = append(fs, f)
+	}
+	// now use them: reg_load2 actions spread over instructions / buckets / a packet-out
+	var acts []string
+	for _, f := range fs {
+		a := g.v()
+		g.add("%s=NewNXActionRegLoad2($%s)", a, f)
+		acts = append(acts, a)
+	}
+	switch r.Intn(3) {
+	case 0:
+		fm := g.v()
+		g.add("%s=NewFlowMod()", fm)
+		g.add("$%s.Xid=%d", fm, g.edge(0xffffffff))
+		m := g.match(1)
+		g.add("$%s.Match=*$%s", fm, m)
+		in := g.v()
+		g.add("%s=NewInstrApplyActions()", in)
+		for i, a := range acts {
+			g.add("$%s.AddAction($%s,0)", in, a)
+			if i == 0 && r.Intn(2) == 0 {
+				x := g.v()
+				g.add("%s=NewNXActionResubmitTableAction(65528,%d)", x, r.Intn(250))
+				g.add("$%s.AddAction($%s,0)", in, x)
+			}
+		}
+		g.add("$%s.AddInstruction($%s)", fm, in)
+		return fm
+	case 1:
+		gm := g.v()
+		g.add("%s=NewGroupMod()", gm)
+		g.add("$%s.Xid=%d", gm, g.edge(0xffffffff))
+		g.add("$%s.GroupId=%d", gm, g.edge(0xffffff00))
+		for _, a := range acts {
+			b := g.v()
+			g.add("%s=NewBucket()", b)
+			g.add("$%s.AddAction($%s)", b, a)
+			g.add("$%s.AddBucket(*$%s)", gm, b)
+		}
+		return gm
+	default:
+		po := g.v()
+		g.add("%s=NewPacketOut()", po)
+		g.add("$%s.Xid=%d", po, g.edge(0xffffffff))
+		for _, a := range acts {
+			g.add("$%s.AddAction($%s)", po, a)
+		}
+		g.add("$%s.SetData(%s)", po, g.bytes(14+r.Intn(30)))
+		return po
+	}
+}
+
+// lateGrowth: a valid history in which a container receives its child FIRST and the child is completed afterwards
+// through its own adders / setters (top-down construction).  Everything is held by pointer, so the final message
+// contains the completed children.  Observed with op "apix": property oracles on the implementation only (the Lean
+// interpreter of API programs has value semantics and does not model this aliasing).
+func (g *apiGen) lateGrowth() string {
+	r := g.c.rng
+	fm := g.v()
+	g.add("%s=NewFlowMod()", fm)
+	g.add("$%s.Xid=%d", fm, g.edge(0xffffffff))
+	g.add("$%s.Command=%d", fm, []int{0, 1, 2}[r.Intn(3)])
+	m := g.match(r.Intn(3))
+	g.add("$%s.Match=*$%s", fm, m)
+	for k := 1 + r.Intn(2); k > 0; k-- {
+		in := g.v()
+		if r.Intn(2) == 0 {
+			g.add("%s=NewInstrApplyActions()", in)
+		} else {
+			g.add("%s=NewInstrWriteActions()", in)
+		}
+		if r.Intn(2) == 0 {
+			g.add("$%s.AddInstruction($%s)", fm, in) // attached while still empty
+			in = in + "!"
+		}
+		name := strings.TrimSuffix(in, "!")
+		for n := 1 + r.Intn(3); n > 0; n-- {
+			switch r.Intn(3) {
+			case 0:
+				ct := g.v()
+				g.add("%s=NewNXActionConnTrack()", ct)
+				g.add("$%s.Commit()", ct)
+				g.add("$%s.AddAction($%s,0)", name, ct) // attached first
+				for j := 1 + r.Intn(3); j > 0; j-- {
+					a := g.action(0)
+					g.add("$%s.AddAction($%s)", ct, a)
+				}
+			case 1:
+				ct := g.v()
+				g.add("%s=NewNXActionConnTrack()", ct)
+				nat := g.v()
+				g.add("%s=NewNXActionCTNAT()", nat)
+				g.add("$%s.SetSNAT()", nat)
+				g.add("$%s.AddAction($%s)", ct, nat)
+				g.add("$%s.AddAction($%s,0)", name, ct)
+				g.add("$%s.SetRangeIPv4Min(%s)", nat, g.bytes(4))
+				if r.Intn(2) == 0 {
+					g.add("$%s.SetRangeIPv4Max(%s)", nat, g.bytes(4))
+				}
+				if r.Intn(2) == 0 {
+					g.add("$%s.SetRangeProtoMin(%d)", nat, g.edge(0xffff))
+				}
+			default:
+				a := g.action(1)
+				g.add("$%s.AddAction($%s,0)", name, a)
+			}
+		}
+		if !strings.HasSuffix(in, "!") {
+			g.add("$%s.AddInstruction($%s)", fm, name)
+		}
+	}
+	return fm
+}
+
 func init() {
 	apiGens = append(apiGens, func(g *apiGen) {
 		// single elements
@@ -616,6 +759,10 @@ func init() {
 			m := g.message()
 			g.emit(m)
 		}
+		sn := g.sameNameFields()
+		g.emit(sn)
+		lg := g.lateGrowth()
+		g.emitAs("apix", lg)
 		// bundle-add wrapping any other message
 		m := g.message()
 		ba := g.v()
